@@ -378,6 +378,9 @@ def run(ck):
     driver = ck.lean_exe("c51driver", "TfelVerif/C51/Driver.lean")
     res = ck.lean(PROPS, PROPS)
     ck.lean_violations(res)
+    if ck.tier == "thorough" and res.ok:
+        for m, log in ck.leanchecker(PROPS):
+            ck.violation("leanchecker:" + m, "leanchecker rejects " + m, {"log": log}, False)
 
     reqs = fixed_requests()
     n_rand = 6000 if ck.quick else 120000
